@@ -8,6 +8,7 @@ package nistkdf
 //   K(i) = PRF(K_IN, [i]_8 || "FIDO-KDF" || 0x00 || "AutomaticOnboardTunnel" || ContextRand || [L]_16)
 //   K_OUT = leftmost L bits of K(1) || ... || K(n)
 //@ func internal/nistkdf.KDF
+//@   params hash shSe contextRand bits
 //@   props C14 C10(sweep)
 //@   sweep bounds,panic,make,nilmem
 //@   requires @hash hsz(u(hash)) == 32 || hsz(u(hash)) == 48
